@@ -823,6 +823,12 @@ func c20(c *core.Ctx, r *core.Report) {
 			}
 		}
 		usesConc := false
+		concT := c.Named("util/list", "ConcurrentSets")
+		for i := 0; st != nil && i < st.NumFields(); i++ {
+			if concT != nil && core.NamedOf(st.Field(i).Type()) == concT {
+				usesConc = true // declared with the concurrent variant's concrete type
+			}
+		}
 		for _, fn := range c.Scope {
 			for _, b := range fn.Blocks {
 				for _, in := range b.Instrs {
